@@ -26,6 +26,8 @@ ConfsC == {Chain3, Cycle3}
 ConfsE == {BothEnd(2), BothEnd(3)}
 ConfsI == {Indep2, Indep3, IndepEnd(2)}
 ConfsOne == {OneWay}
+\* finite end_time, daemon events allowed
+ConfsD == {C(<<1, 2>>, 2, {<<1, 2>>}, 3), C(<<1, 2>>, 2, {}, 3)}
 \* the one-way link declares a latency distribution
 ConfsOv == {[ep |-> <<1, 2>>, np |-> 2, links |-> {<<1, 2>>}, endT |-> Inf, ovl |-> {<<1, 2>>}]}
 OneEnd(t) == C(<<1, 2>>, 2, {<<1, 2>>}, t)
@@ -37,7 +39,7 @@ ConfsT == {OneWay, BothWays, BothEnd(2), BothEnd(3), Indep2, Indep3, IndepEnd(2)
 \* partition 2: event 1 (t=0) may disarm the timer 3 (t=1, the last entry inside window 1), its next
 \* live event 4 is due at t=3; partition 1: event 2 (t=1) may send to partition 2 for t=2.
 \* TLC still chooses every handler result (outputs, cancels).
-P0(t, g) == [t |-> t, tgt |-> g, par |-> 0, cby |-> 0]
+P0(t, g) == [t |-> t, tgt |-> g, par |-> 0, cby |-> 0, d |-> FALSE]
 InitTimers ==
     /\ conf = OneWay /\ lat = [k \in {<<1, 2>>} |-> 1] /\ w = 1
     /\ ev = <<P0(0, 2), P0(1, 1), P0(1, 2), P0(3, 2)>>
